@@ -13,9 +13,9 @@ RULE = ("seeded histories of create/copy/set/destroy/generate/generate-pair/unwr
         "length 0..300000 around stdio-buffer boundaries, mechanism sets, nested wrap/unwrap templates, dates), token and session objects, interleaved with C_Finalize/C_Initialize and a second "
         "library copy started cold on the same simulated disk; every new object is read back once (learn-then-pin) and every later read-out - other session, after restart, other copy - must return the "
         "supplied/pinned values; an independent decoder parses the simulated disk and must recover the same attribute maps (private values decrypted with the model's PIN). A quarter of the runs inject "
-        "1-3 file-operation faults into mutating calls: a call that returned CKR_OK must have persisted its effect. Golden fixtures written by the pinned build are loaded as initial disks. "
+        "1-3 file-operation faults into mutating calls: a call that returned CKR_OK must have persisted its effect. Golden fixtures written by the pinned build are loaded as initial disks. Every third plan runs on the SQLite object store over the same simulated disk (faults then hit SQLite's own reads, writes, syncs, journal opens and deletions). "
         "Distinct+non-trivial: (operation, object kind, token/private, value-size class, where it was read back, stdio buffer knob).")
-PROBES = ["readout_after_restart", "readout_in_cold_copy", "disk_decoded", "private_value_decrypted", "large_value", "nested_template", "mechanism_set", "destroyed_absent", "session_object_gone", "pinned_compared", "fixture_loaded", "fault_fired", "ok_under_fault_checked"]
+PROBES = ["readout_after_restart", "readout_in_cold_copy", "disk_decoded", "private_value_decrypted", "large_value", "nested_template", "mechanism_set", "destroyed_absent", "session_object_gone", "pinned_compared", "fixture_loaded", "fault_fired", "ok_under_fault_checked", "db_backend_runs", "db_disk_decoded"]
 DEATH_IS_VIOLATION = ()
 
 W = {"open": 4, "close": 2, "login": 5, "logout": 2, "create": 24, "gen": 6, "genpair": 2, "unwrap": 5, "derive": 5, "copy": 7, "setattr": 12, "destroy": 7, "restart": 4, "coldcopy": 2, "readout": 6, "disk": 3}
@@ -36,6 +36,9 @@ def gen(seed, tier, index):
     faulty = (index % 2 == 1)
     g = StoreW(seed, "C05", profile="fault" if faulty else "seq", big=(index % 5 == 0))
     r = g.r
+    if index % 6 in (4, 5):
+        # configuration stratum: the SQLite object store, on the same simulated disk (SQLite VFS seam), with and without faults
+        g.knobs["conf"]["objectstore.backend"] = "db"
     g.begin()
     for t in g.toks():
         g.s_open(tok=t, rw=True); g.s_login(user=K.CKU_USER, tok=t)
@@ -181,13 +184,27 @@ def check(plan, r):
         elif f == "@disk":
             viols += check_disk(ret.get("tree", {}), w, so, suspect, st, k, where)
     r.aux["c05"] = (cov, stats)
+    tag_backend(plan, viols, fault_ops, st)
     return viols[:6]
+
+READ_SIDE = ("read", "access", "fstat", "lock")
+def tag_backend(plan, viols, fault_ops, st):
+    """every violation names the object store it was seen on and whether a READ-side fault (read/access/fstat/lock below SQLite, or of an object file) had fired
+    before it in the run - the known-finding signatures are written in these terms"""
+    backend = plan["knobs"].get("conf", {}).get("objectstore.backend", "file")
+    if backend == "db": st("db_backend_runs")
+    rf = [k for k, evs in fault_ops.items() if k is not None and any(e.get("k") in READ_SIDE for e in evs)]
+    first = min(rf) if rf else None
+    for v in viols:
+        v["backend"] = backend
+        v["read_fault_before"] = bool(first is not None and isinstance(v.get("op"), int) and v["op"] >= first)
 
 def check_disk(tree, w, so, suspect, st, k, where):
     """independent decoding of the simulated disk (format pin)"""
     viols = []
     toks = decoder.decode_tree(tree)
     st("disk_decoded")
+    if any(getattr(td, "backend", None) == "db" for td in toks.values()): st("db_disk_decoded")
     seen_refs = {}
     for dname, td in toks.items():
         if td.label is None:
@@ -275,4 +292,4 @@ TECHNIQUE = "deterministic simulation with fault injection: seeded store histori
 CLAIM = ("Seeded exploration: the real library stores objects on the simulated disk (real glibc buffering, varied buffer sizes, readdir orders, short writes); every acknowledged creation, copy, change and destruction is "
          "checked after C_Finalize/C_Initialize and in a second library copy started cold, attribute by attribute; an independent decoder (own parser, S2K and AES via EVP) must read the same values from the raw "
          "disk, which pins the format together with golden fixtures written by the pinned build; with injected file-operation faults a call that answered CKR_OK must still have persisted its effect. Evidence, not proof.")
-NOTE = "Trusted: reference model, the format specification in DESIGN 2.7 (implemented by tools/decoder.py), the simfs stub. File back end only (SQLite is not built into the simulator)."
+NOTE = "Trusted: reference model, the format specification in DESIGN 2.7 (implemented by tools/decoder.py), the simfs stub. Both object stores: a third of the generated plans run on the SQLite store, which reaches the simulated disk through a SQLite VFS (real SQLite above it; the independent decoder for that store is Python's sqlite3 module reading the raw database image plus own attribute-array parser). Golden fixtures exist for the file store only."
